@@ -21,6 +21,9 @@ type OptSpec struct {
 	Key string `json:"key,omitempty"`
 	Val Val    `json:"val,omitempty"`
 	Fmt string `json:"fmt,omitempty"` // record | stamp
+	// Shared: the option value is built once per simulated process and passed to every call that names it
+	// (an application-wide `var withTenant = z.WithCtxValue(...)`), not rebuilt per call.
+	Shared bool `json:"shared,omitempty"`
 }
 
 type Op struct {
@@ -275,6 +278,26 @@ type X struct {
 	leanRecs      [8]*OpRec
 	OpaqueResults bool
 	SanitizeBad   string
+	sharedOpts    map[string]z.ExecOption
+}
+
+func sharedOptKey(o *OptSpec) string { return o.Key + "=" + o.Val.String() }
+
+// buildSharedOpts builds the long-lived option values of a simulated process (read-only afterwards).
+func (x *X) buildSharedOpts() {
+	x.sharedOpts = map[string]z.ExecOption{}
+	for _, t := range x.W.Tasks {
+		for i := range t {
+			for j := range t[i].Opts {
+				o := &t[i].Opts[j]
+				if o.K == "ctx" && o.Shared {
+					if _, ok := x.sharedOpts[sharedOptKey(o)]; !ok {
+						x.sharedOpts[sharedOptKey(o)] = z.WithCtxValue(o.Key, o.Val.ToGo())
+					}
+				}
+			}
+		}
+	}
 }
 
 func NewX(w *World, dec *Dec) *X {
@@ -307,6 +330,7 @@ func (x *X) FreshRun(phase string) {
 	x.R.Trace = x.Trace
 	x.recs = map[string]*OpRec{}
 	x.Dec.Phase = phase
+	x.buildSharedOpts()
 	simrt.Install(x.R)
 }
 
@@ -348,6 +372,10 @@ func (x *X) execOptions(op *Op, rec *OpRec) []z.ExecOption {
 	for _, o := range op.Opts {
 		switch o.K {
 		case "ctx":
+			if so, ok := x.sharedOpts[sharedOptKey(&o)]; ok && o.Shared {
+				out = append(out, so)
+				continue
+			}
 			out = append(out, z.WithCtxValue(o.Key, o.Val.ToGo()))
 		case "fmt":
 			switch o.Fmt {
